@@ -1094,9 +1094,17 @@ class SymmetryAnalyzer(object):
             "identity": True,
         }
         normalizers.append(identity)
-        normalizers.extend(
-            CHIRALITY_PRESERVING_EUCLIDEAN_NORMALIZERS.get(space_group, [])
-        )
+        candidates = CHIRALITY_PRESERVING_EUCLIDEAN_NORMALIZERS.get(space_group, [])
+        # For some space groups with only proper operations the table also
+        # lists improper normalizers. Applying one of them would return the
+        # mirror image (enantiomorph) of the structure, so they are skipped.
+        if self.get_is_chiral():
+            candidates = [
+                x
+                for x in candidates
+                if np.linalg.det(x["transformation"][0:3, 0:3]) > 0
+            ]
+        normalizers.extend(candidates)
 
         # If no normalizers found for this space group, return the same system
         if len(normalizers) == 1:
